@@ -366,6 +366,29 @@ Proof.
   - apply mlist_eqb_ok. vm_compute. reflexivity.
 Qed.
 
+(* 9d. the loop WITH its `norm < 1e-4` branch, as written, coincides with the plain Gram-Schmidt
+       loop of 9c whenever the branch is never taken; and the Householder least-squares solve,
+       taken by its normal equations, returns Y^T B1 for orthonormal Y (the hypothesis
+       B = Y^T A Y of 9c) *)
+Theorem C06_gram_schmidt_threshold_branch :
+  forall (F : Type) (Fo : FieldOps F) (below : F -> bool) (n : nat) (Y : mat F) (k : nat) (s : nat -> F),
+    (forall i, i < k -> below (s i) = false) ->
+    forall t c, gram_schmidt_thr below n Y k s t c = gram_schmidt n Y k s t c.
+Proof. exact @gram_schmidt_thr_no_branch. Qed.
+Print Assumptions C06_gram_schmidt_threshold_branch.
+
+Example C06_gram_schmidt_threshold_nonvacuous :
+  forall i, i < 1 -> (fun x : Qc => pq_leb x (qfrac 1 10000) && negb (qeqb x (qfrac 1 10000))) (ex6r_s i) = false.
+Proof. intros i Hi. vm_compute. reflexivity. Qed.
+
+Theorem C06_ls_solution_orthonormal :
+  forall (F : Type) (Fo : FieldOps F) (Ff : IsField F) (n k : nat) (Y B B1 : mat F),
+    orthonormal_cols n k Y ->
+    meq k k (mmul k (mmul n (mtrans Y) Y) B) (mmul n (mtrans Y) B1) ->
+    meq k k B (mmul n (mtrans Y) B1).
+Proof. exact @ls_solution_orthonormal. Qed.
+Print Assumptions C06_ls_solution_orthonormal.
+
 (* Ky Fan itself, both directions and attainment, every n, d, every ordered field *)
 Theorem C06_ky_fan :
   forall (F : Type) (Fo : FieldOps F) (Ff : IsField F) (Fle : OrderedField F)
